@@ -128,7 +128,7 @@ func vStateNonce(state string, encode bool) string {
 // own cookie, a tampered one, a cookie under the right name with arbitrary value, or none
 // verif: unwind=8 strlen=8 ideal havoc=ip.GetClientString also=C05,C06,C08,C13,C14,C18,C19 paths=30000 steps=3000000 concretize=4
 func vh_C03_flow_single() {
-	stateKind := ndChoice("state-kind", 3)
+	stateKind := ndChoice("state-kind", 4)
 	cookieKind := ndChoice("cookie-kind", 5)
 	// identity-provider and store faults are explored on the honest path; the
 	// tampering paths run against a permissive environment (the adversarial choice for "only if")
@@ -147,6 +147,13 @@ func vh_C03_flow_single() {
 		rd2 := ndString("replaced-rd")
 		verifAssume(vRdModelled(rd2))
 		state = encodeState(vStateNonce(l.state, f.p.encodeState), rd2, f.p.encodeState)
+		ownState = false
+	}
+	if stateKind == 3 {
+		// the own nonce followed by a line break (base64 decoders skip CR/LF: a state that is
+		// not the issued string but would decode to the same bytes)
+		_, rd3, _ := decodeState(l.state, f.p.encodeState)
+		state = encodeState(vStateNonce(l.state, f.p.encodeState)+"\n", rd3, f.p.encodeState)
 		ownState = false
 	}
 	var jar []*http.Cookie
